@@ -226,9 +226,14 @@ def gen_strings_for(rng, ts, n, big=False, missing_p=0.0):
 def gen_measure_threshold(rng, ts, measures=None):
     ms = measures or (ALL_MEASURES if ts.kind == 'qgram' else ['JACCARD', 'COSINE', 'DICE', 'OVERLAP'])
     m = rng.choice(ms)
+    # the documented type of a filter threshold is float: integral and fractional floats are valid for EDIT_DISTANCE / OVERLAP too
     if m == 'EDIT_DISTANCE':
+        if rng.random() < 0.3:
+            return m, rng.choice([0.0, 0.5, 1.0, 1.5, 2.0, 2.7, 3.0]), 'ed_float'
         return m, rng.randint(0, 4), 'ed'
     if m == 'OVERLAP':
+        if rng.random() < 0.3:
+            return m, rng.choice([0.5, 1.0, 1.5, 2.0, 2.5, 3.0]), 'ov_float'
         return m, rng.randint(1, 4), 'ov'
     t, cls = gen_threshold(rng)
     return m, t, cls
